@@ -10,17 +10,17 @@ C03 → C02 bridge: arrays that serde_arrow BUILDS satisfy everything the reader
 
 The read-back theorems (`Props.C02.read_any_decode`, `read_typed_decode`) carry three reader-side preconditions:
 `Read.new Fixes.all a = ok ()` (the reader can be constructed), `Read.physical a` (lengths representable),
-`Read.utf8Ok lv` (decoded strings are valid UTF-8).  Here they are DERIVED from `Spec.WF` — which `C03_wf'` proves of every
+`Read.utf8Ok lv` (decoded strings are valid UTF-8).  Here they are DERIVED from `Spec.WFS` — which `C03_wf'` proves of every
 array `to_marrow` returns — and composed with `Props.C01.C01_build_decode'` (the hidden-rows refinement, Props/C01Obs.lean:
 NO `Safe` hypothesis; the theorems that have `coveredF` among their hypotheses carry nothing in its place, the two that do
 not — `toMarrow_readable`, `toMarrow_physical_partial` — carry exactly the hypothesis of `C03_wf'`, `Safe ∨ coveredF`):
 
-  wf_new              WF f a, `readableDT f.dataType`      ⇒  Read.new Fixes.all a = ok ()
-  wf_utf8             WF f a, decodeAt a i = ok lv          ⇒  utf8Ok lv                       (no further hypothesis)
-  wf_physical_partial WF f a, `physFreeDT f.dataType`      ⇒  Read.physical a   (PARTIAL: types without FixedSizeList /
-                      Dictionary; `wf_not_physical`: WF alone does not bound the sizes `physical` speaks about)
+  wf_new              WFS f a, `readableDT f.dataType`      ⇒  Read.new Fixes.all a = ok ()
+  wf_utf8             WFS f a, decodeAt a i = ok lv          ⇒  utf8Ok lv                       (no further hypothesis)
+  wf_physical_partial WFS f a, `physFreeDT f.dataType`      ⇒  Read.physical a   (PARTIAL: types without FixedSizeList /
+                      Dictionary; `wf_not_physical`: WFS alone does not bound the sizes `physical` speaks about)
   wf_dense / wf_dict_values_not_null   what the reader refuses and the builders never produce (sparse unions, nullable
-                      dictionary values): excluded by WF itself
+                      dictionary values): excluded by WFS itself
   toMarrow_readable   every array of `to_marrow` is accepted by `ArrayDeserializer::new`, has `rows.length` rows for the
                       reader (`vlen`), only decodes to valid UTF-8, and is `physical` (same restriction)
   toMarrow_readAny    reading back what was built gives the documented value of the input: `readAny arrs[j] i` is the
@@ -38,37 +38,37 @@ open SaModel.Lemmas.C03 (readableDT readableF readableFs physFreeDT)
 
 /-- **`wf_new`**: `ArrayDeserializer::new` accepts every well-formed array of a field whose type the reader supports —
 every array kind, any nesting (generalises `Roundtrip.new_of_wf`, which was for traced enum-free schemas) -/
-theorem wf_new (f : Field) (a : Arr) (hr : readableDT f.dataType = true) (h : WF f a = true) :
+theorem wf_new (f : Field) (a : Arr) (hr : readableDT f.dataType = true) (h : WFS f a = true) :
     Read.new Read.Fixes.all a = .ok () := Lemmas.C03.WF_new f a hr h
 
 /-- **`wf_utf8`**: every string inside the logical value of any slot of a well-formed array is valid UTF-8 -/
-theorem wf_utf8 (f : Field) (a : Arr) (i : Nat) (lv : LVal) (h : WF f a = true) (hd : decodeAt a i = .ok lv) :
+theorem wf_utf8 (f : Field) (a : Arr) (i : Nat) (lv : LVal) (h : WFS f a = true) (hd : decodeAt a i = .ok lv) :
     Read.utf8Ok lv = true := Lemmas.C03.WF_utf8 f a i lv h hd
 
 /-- **`wf_physical_partial`**: `Read.physical` from well-formedness — PARTIAL: only for types without FixedSizeList and
 Dictionary.  What is missing: the two size clauses of `Read.physical` (FixedSizeList child ≤ `usize::MAX` slots, dictionary
-values ≤ `i64::MAX`) for those types; they do NOT follow from `Spec.WF` (`wf_not_physical`) and the builder model has
+values ≤ `i64::MAX`) for those types; they do NOT follow from `Spec.WFS` (`wf_not_physical`) and the builder model has
 unbounded counters, so they need a size hypothesis on the input or an invariant on the number of distinct dictionary
 values (not done). -/
-theorem wf_physical_partial (f : Field) (a : Arr) (hp : physFreeDT f.dataType = true) (h : WF f a = true) :
+theorem wf_physical_partial (f : Field) (a : Arr) (hp : physFreeDT f.dataType = true) (h : WFS f a = true) :
     Read.physical a = true := Lemmas.C03.WF_physical_plain f a hp h
 
-/-- `Spec.WF` alone does not give `Read.physical` (witness: FixedSizeList<Null, 2> of 2^63 rows) -/
+/-- `Spec.WFS` alone does not give `Read.physical` (witness: FixedSizeList<Null, 2> of 2^63 rows) -/
 theorem wf_not_physical :
     let f : Field := .mk "c" (.fixedSizeList (.mk "element" .null false []) 2) false []
     let a : Arr := .fixedSizeList (2 ^ 63) none 2 ⟨"element", false, []⟩ (.null (2 ^ 64))
-    WF f a = true ∧ Read.physical a = false := Lemmas.C03.wf_not_physical
+    WFS f a = true ∧ Read.physical a = false := Lemmas.C03.wf_not_physical
 
-/-- the builders never produce a SPARSE union (the reader only supports dense ones): excluded by `WF`, hence by `C03_wf` -/
-theorem wf_dense (f : Field) (types : List Int) (cols : ArrUFields) : WF f (.union types none cols) = false := by
+/-- the builders never produce a SPARSE union (the reader only supports dense ones): excluded by `WFS`, hence by `C03_wf` -/
+theorem wf_dense (f : Field) (types : List Int) (cols : ArrUFields) : WFS f (.union types none cols) = false := by
   rcases f with ⟨n, dt, nl, md⟩
-  cases dt <;> simp [WF, Field.dataType, Field.nullable, wf]
+  cases dt <;> simp [WFS, Field.dataType, Field.nullable, wf]
 
 /-- the builders never produce a dictionary whose VALUES carry a validity bitmap (the reader refuses nullable values) -/
 theorem wf_dict_values_not_null (f : Field) (ks : Arr) (ty : BytesTy) (b : Bits) (offs : List Int) (data : Bytes) :
-    WF f (.dictionary ks (.bytes ty (some b) offs data)) = false := by
+    WFS f (.dictionary ks (.bytes ty (some b) offs data)) = false := by
   rcases f with ⟨n, dt, nl, md⟩
-  cases dt <;> simp only [WF, Field.dataType, Field.nullable, wf]
+  cases dt <;> simp only [WFS, Field.dataType, Field.nullable, wf]
   rename_i k v
   cases hv : wf v false (.bytes ty (some b) offs data) with
   | false => simp
@@ -286,7 +286,7 @@ the hypotheses hold (computed) and the conclusions are the computed facts -/
 example :
     let f : Field := .mk "d" (.dictionary .int8 .utf8) true []
     let a : Arr := .dictionary (.prim .int8 (some ⟨[0b101], 0⟩) [1, 0, 0]) (.bytes .utf8 none [0, 1, 3] [97, 0xC3, 0xA9])
-    WF f a = true ∧ readableDT f.dataType = true ∧ decodeAt a 0 = .ok (.str [0xC3, 0xA9]) ∧
+    WFS f a = true ∧ readableDT f.dataType = true ∧ decodeAt a 0 = .ok (.str [0xC3, 0xA9]) ∧
       Read.new Read.Fixes.all a = .ok () ∧ Read.utf8Ok (.str [0xC3, 0xA9]) = true := by decide
 
 example :
@@ -295,7 +295,7 @@ example :
     let a : Arr := .list true none [0, 2, 3] ⟨"u", false, []⟩
       (.union [1, 0, 1] (some [0, 0, 1]) (.cons 0 ⟨"N", true, []⟩ (.null 1)
         (.cons 1 ⟨"S", false, []⟩ (.bytes .largeUtf8 none [0, 1, 1] [120]) .nil)))
-    WF f a = true ∧ readableDT f.dataType = true ∧ physFreeDT f.dataType = true ∧
+    WFS f a = true ∧ readableDT f.dataType = true ∧ physFreeDT f.dataType = true ∧
       Read.new Read.Fixes.all a = .ok () ∧ Read.physical a = true := by decide
 
 /-- the reader refuses what `readableDT` excludes although the array is well formed: an unknown strategy on a child field,
@@ -305,8 +305,8 @@ example :
     let a : Arr := .list false none [0] ⟨"element", false, [("SERDE_ARROW:strategy", "Nope")]⟩ (.prim .int8 none [])
     let g : Field := .mk "d" (.dictionary .int8 .date32) false []
     let b : Arr := .dictionary (.prim .int8 none [0]) (.prim .date32 none [7])
-    WF f a = true ∧ readableDT f.dataType = false ∧ (Read.new Read.Fixes.all a).isOk = false ∧
-    WF g b = true ∧ readableDT g.dataType = false ∧ (Read.new Read.Fixes.all b).isOk = false := by decide
+    WFS f a = true ∧ readableDT f.dataType = false ∧ (Read.new Read.Fixes.all a).isOk = false ∧
+    WFS g b = true ∧ readableDT g.dataType = false ∧ (Read.new Read.Fixes.all b).isOk = false := by decide
 
 /-- `toMarrow_readRecord` / `toMarrow_readAny` on the worked instance of Props/C03.lean (`{a: Int32?, l: List<Int8>}`, two
 records): every hypothesis discharged, so reading the built arrays back returns the documented values unconditionally -/
